@@ -103,6 +103,7 @@ type exec struct {
 	step  int
 	state map[uint64]bool
 	trace bool
+	fatal bool // an oracle failed in a way that makes the rest of the history meaningless
 }
 
 func newExec(sc Scenario) *exec {
@@ -110,6 +111,20 @@ func newExec(sc Scenario) *exec {
 }
 
 func (e *exec) violate(oracle, key, detail string) {
+	e.fatal = true
+	if len(e.res.Violations) < 20 {
+		e.res.Violations = append(e.res.Violations, Violation{Oracle: oracle, Key: key, Detail: detail, Step: e.step})
+	}
+}
+
+// violateSoft records a violation after which the run's state is still meaningful, so the
+// history continues (one record per signature and run).
+func (e *exec) violateSoft(oracle, key, detail string) {
+	for _, v := range e.res.Violations {
+		if v.Oracle == oracle && v.Key == key {
+			return
+		}
+	}
 	if len(e.res.Violations) < 20 {
 		e.res.Violations = append(e.res.Violations, Violation{Oracle: oracle, Key: key, Detail: detail, Step: e.step})
 	}
